@@ -48,6 +48,22 @@ class Ob:
         return {"rule": self.rule, "key": self.key, "ok": self.ok, "why": self.why, "loc": self.loc, "config": self.cfg}
 
 
+_DED = None
+
+
+def _dedicated_elsewhere():
+    """function paths that some property's check reads with a rule of its own (recorded on the reviewed tree)"""
+    global _DED
+    if _DED is None:
+        try:
+            import json as _json
+            with open(os.path.join(os.path.dirname(os.path.abspath(__file__)), "ref_dedicated.json")) as fh:
+                _DED = set(_json.load(fh))
+        except OSError:
+            _DED = set()
+    return _DED
+
+
 class Ctx:
     def __init__(self, pid, tier, seed=0, only_key=None):
         self.pid = pid
@@ -60,6 +76,7 @@ class Ctx:
         self.notes = []
         self.rules_doc = {}
         self.analysed = {"functions": set(), "call_sites": 0, "blocks": 0}
+        self.generic_visits = set()   # (cfg, path) read by the generic normal-form rules (SA-SUMMARY / SA-PATHSUM) only
         self.deferred = []   # (rule, key, why, loc, cfg, (cfg, path)): verdicts that depend on whether some other rule reads the body
 
     # -- loading -------------------------------------------------------------
@@ -110,7 +127,10 @@ class Ctx:
     def finish(self, explanation, assumptions, level="other"):
         for rule, key, why, loc, cfg, fk in self.deferred:
             read = fk in self.analysed["functions"]
-            self.ob(rule, key, read, ("the body changed form and is read by a dedicated rule of this check" if read else why), loc, cfg)
+            elsewhere = (not read) and fk[1] in _dedicated_elsewhere()
+            self.ob(rule, key, read or elsewhere,
+                    ("the body changed form and is read by a dedicated rule of this check" if read else
+                     "the body changed form; it is read by a dedicated rule of another property's check (sa/ref_dedicated.json), which judges it" if elsewhere else why), loc, cfg)
         self.deferred = []
         known, fixed = load_known()
         viol = []
@@ -186,6 +206,7 @@ class Ctx:
                 "configurations": facts.BUILD_LOG,
                 "functions_analysed": len(self.analysed["functions"]),
                 "function_paths_analysed": sorted(set(p for (_c, p) in self.analysed["functions"])),
+                "function_paths_read_by_dedicated_rules": sorted(set(p for (c_, p) in self.analysed["functions"] if (c_, p) not in self.generic_visits)),
                 "blocks_analysed": self.analysed["blocks"],
                 "call_sites_analysed": self.analysed["call_sites"],
                 "known_findings": [{"key": o.full_key(), "what": w} for o, w in kf],
